@@ -569,3 +569,99 @@ func iterationSkips2(fn *ssa.Function, must ssa.Instruction) (bool, string) {
 	// the Range instruction sits in the block just before the inner loop's header, which belongs to the outer loop only
 	return iterationSkips(fn, must)
 }
+
+// STICKY-FLAG: a boolean carried round a loop that is only ever set (in-loop values: itself or `true`) and is TESTED
+// inside the loop body decides something about the current element from what an EARLIER element did — unless that is
+// the point ("seen one already"), it is a per-element flag whose reset was lost. Reported for the caller to judge:
+// the armed rules list the functions where per-element classification happens.
+type stickyFlag struct {
+	fn   *ssa.Function
+	phi  *ssa.Phi
+	loop loopInfo
+	test *ssa.If
+}
+
+func stickyFlagsTestedInLoop(fn *ssa.Function) []stickyFlag {
+	var out []stickyFlag
+	for _, li := range naturalLoops(fn) {
+		for _, in := range li.header.Instrs {
+			phi, ok := in.(*ssa.Phi)
+			if !ok {
+				continue
+			}
+			if b, ok := phi.Type().Underlying().(*types.Basic); !ok || b.Kind() != types.Bool {
+				continue
+			}
+			// in-loop edges: only the phi itself (possibly through inner phis) or constant true
+			sticky, setsTrue := true, false
+			seen := map[ssa.Value]bool{}
+			var walk func(v ssa.Value)
+			walk = func(v ssa.Value) {
+				if seen[v] {
+					return
+				}
+				seen[v] = true
+				switch x := v.(type) {
+				case *ssa.Phi:
+					if x == phi {
+						return
+					}
+					if li.body[x.Block()] {
+						for _, e := range x.Edges {
+							walk(e)
+						}
+						return
+					}
+					sticky = false
+				case *ssa.Const:
+					if x.Value != nil && x.Value.String() == "true" {
+						setsTrue = true
+					} else {
+						sticky = false
+					}
+				default:
+					sticky = false
+				}
+			}
+			for i, e := range phi.Edges {
+				if !li.body[li.header.Preds[i]] {
+					continue // entry edge
+				}
+				walk(e)
+			}
+			if !sticky || !setsTrue {
+				continue
+			}
+			// tested inside the body (directly or through an inner phi that merges it)?
+			var test *ssa.If
+			users := []ssa.Value{phi}
+			seen = map[ssa.Value]bool{}
+			for len(users) > 0 {
+				u := users[0]
+				users = users[1:]
+				for _, ref := range *u.Referrers() {
+					switch x := ref.(type) {
+					case *ssa.If:
+						// "found one: stop" (an arm leaves the loop) is the legitimate use of a sticky flag
+						if li.body[x.Block()] && x.Block() != li.header && li.body[x.Block().Succs[0]] && li.body[x.Block().Succs[1]] {
+							test = x
+						}
+					case *ssa.Phi:
+						if li.body[x.Block()] && x != phi && !seen[x] {
+							seen[x] = true
+							users = append(users, x)
+						}
+					case *ssa.UnOp:
+						if x.Op == token.NOT {
+							users = append(users, x)
+						}
+					}
+				}
+			}
+			if test != nil {
+				out = append(out, stickyFlag{fn, phi, li, test})
+			}
+		}
+	}
+	return out
+}
